@@ -148,3 +148,109 @@ Theorem C04_f32_cuts_are_threshold_components : forall (p : profile) (a : algo) 
 Proof. exact mst_cuts_f32. Qed.
 Print Assumptions C04_f32_cuts_are_threshold_components.
 
+
+(* ---- Method::Single through nnchain, generic and primitive (Proofs/
+   SingleThreshold.v, SingleCuts.v) ----
+   Each of the three loops merges (weak) reciprocal nearest neighbours under the
+   single-linkage criterion; for any such trace the classes joined by the raw
+   steps of weight <= t are the components of the threshold graph at t, for
+   every t and under any pattern of ties.  Sort + relabel as for mst. *)
+Require Import KV.Model.Primitive KV.Model.Chain KV.Model.Generic KV.Proofs.LWInvariant KV.Proofs.CriteriaRun
+  KV.Proofs.SingleThreshold KV.Proofs.SingleCuts.
+
+(* the abstract theorem on traces *)
+Theorem C04_rnn_trace_threshold_components : forall (T : Type) (ltb : T -> T -> bool),
+  (forall a b c, ltb a b = false -> ltb b c = false -> ltb a c = false) ->
+  forall d0 : nat -> nat -> T, (forall x y, d0 x y = d0 y x) ->
+  forall (V : list nat) (n : nat) (raw : list (step T)),
+  V = seq 0 n -> sltrace ltb d0 (seq 0 n) Leaf raw -> length raw + 1 = n ->
+  forall t x y, In x V -> In y V -> (link ltb t raw x y <-> conn ltb d0 V t x y).
+Proof. exact sl_threshold_components. Qed.
+Print Assumptions C04_rnn_trace_threshold_components.
+
+(* what a trace is, pinned *)
+Theorem C04_sltrace_inv : forall (T : Type) (ltb : T -> T -> bool) (d0 : nat -> nat -> T) L mem st rest,
+  sltrace ltb d0 L mem (st :: rest) ->
+  exists a b v sz, st = step_new a b v sz /\ In a L /\ In b L /\ a < b
+    /\ is_min_over ltb d0 (mem a) (mem b) v
+    /\ (forall x, In x L -> x <> a -> x <> b -> forall x' y',
+          In x' (leaves (mem a)) \/ In x' (leaves (mem b)) -> In y' (leaves (mem x)) -> ltb (d0 x' y') v = false)
+    /\ sltrace ltb d0 (without a L) (upd_mem mem a b) rest.
+Proof.
+  intros T ltb d0 L mem st rest H. inversion H; subst.
+  eexists _, _, _, _. split; [reflexivity|]. repeat (split; [assumption|]). assumption.
+Qed.
+Print Assumptions C04_sltrace_inv.
+
+Theorem C04_primitive_single_cuts : forall (T : Type) (F : fops T) (p : profile),
+  (forall a, f_ltb F a a = false) ->
+  (forall a b c, f_ltb F a b = true -> f_ltb F b c = true -> f_ltb F a c = true) ->
+  (forall a b c, f_ltb F a b = false -> f_ltb F b c = false -> f_ltb F a c = false) ->
+  (forall a b, f_eqb F a b = true -> f_ltb F b a = false) ->
+  forall s d m n s' d' m' M0,
+  primitive_with (kops_of F Single) p Single s d m n = Ok (s', d', m') -> prologue p m n = Ok M0 -> 1 <= m_obs M0 ->
+  forall t : T, exists j, j <= m_obs M0 - 1 /\ cut_at (kops_of F Single) t j (heights d')
+    /\ forall x y, x < m_obs M0 -> y < m_obs M0 ->
+        (labi (m_obs M0) (d_steps d') j x = labi (m_obs M0) (d_steps d') j y
+         <-> conn (f_ltb F) (cell_or (f_inf F) M0) (seq 0 (m_obs M0)) t x y).
+Proof. exact primitive_single_cuts_all. Qed.
+Print Assumptions C04_primitive_single_cuts.
+
+Theorem C04_nnchain_single_cuts : forall (T : Type) (F : fops T) (p : profile),
+  (forall a, f_ltb F a a = false) ->
+  (forall a b c, f_ltb F a b = true -> f_ltb F b c = true -> f_ltb F a c = true) ->
+  (forall a b c, f_ltb F a b = false -> f_ltb F b c = false -> f_ltb F a c = false) ->
+  (forall a b, f_eqb F a b = true -> f_ltb F b a = false) ->
+  forall s d m n s' d' m' M0,
+  nnchain_with (kops_of F Single) p Single s d m n = Ok (s', d', m') -> prologue p m n = Ok M0 -> 1 <= m_obs M0 ->
+  forall t : T, exists j, j <= m_obs M0 - 1 /\ cut_at (kops_of F Single) t j (heights d')
+    /\ forall x y, x < m_obs M0 -> y < m_obs M0 ->
+        (labi (m_obs M0) (d_steps d') j x = labi (m_obs M0) (d_steps d') j y
+         <-> conn (f_ltb F) (cell_or (f_inf F) M0) (seq 0 (m_obs M0)) t x y).
+Proof. exact nnchain_single_cuts_all. Qed.
+Print Assumptions C04_nnchain_single_cuts.
+
+Theorem C04_generic_single_cuts : forall (T : Type) (F : fops T) (p : profile),
+  (forall a, f_ltb F a a = false) ->
+  (forall a b c, f_ltb F a b = true -> f_ltb F b c = true -> f_ltb F a c = true) ->
+  (forall a b c, f_ltb F a b = false -> f_ltb F b c = false -> f_ltb F a c = false) ->
+  (forall a b, f_eqb F a b = true -> f_ltb F b a = false) ->
+  (forall a, f_eqb F a a = true) ->
+  forall s d m n s' d' m' M0,
+  Forall (fun v => f_ltb F v (f_max F) = true) m ->
+  generic_with (kops_of F Single) p Single s d m n = Ok (s', d', m') -> prologue p m n = Ok M0 -> 1 <= m_obs M0 ->
+  forall t : T, exists j, j <= m_obs M0 - 1 /\ cut_at (kops_of F Single) t j (heights d')
+    /\ forall x y, x < m_obs M0 -> y < m_obs M0 ->
+        (labi (m_obs M0) (d_steps d') j x = labi (m_obs M0) (d_steps d') j y
+         <-> conn (f_ltb F) (cell_or (f_inf F) M0) (seq 0 (m_obs M0)) t x y).
+Proof. exact generic_single_cuts_all. Qed.
+Print Assumptions C04_generic_single_cuts.
+
+(* ... and on the two float carriers: all five entry points are now covered *)
+Theorem C04_f64_single_cuts_other_entry_points : forall (p : profile) (a : algo) s d
+  (m : list PrimFloat.float) (n : N) s' d' m' M0,
+  a = ANnchain \/ a = AGeneric \/ a = APrimitive ->
+  run_with F64 p a Single s d m n = Ok (s', d', m') ->
+  prologue p m n = Ok M0 -> 1 <= m_obs M0 ->
+  Forall (fun v => PrimFloat.ltb v (f_max F64) = true) m ->
+  forall t : PrimFloat.float, PrimFloat.is_nan t = false ->
+  exists j, j <= m_obs M0 - 1 /\ cut_at (kops_of F64 Single) t j (heights d')
+    /\ forall x y, x < m_obs M0 -> y < m_obs M0 ->
+        (labi (m_obs M0) (d_steps d') j x = labi (m_obs M0) (d_steps d') j y
+         <-> conn PrimFloat.ltb (dcell (kops_of F64 Single) M0) (seq 0 (m_obs M0)) t x y).
+Proof. exact single_cuts_f64. Qed.
+Print Assumptions C04_f64_single_cuts_other_entry_points.
+
+Theorem C04_f32_single_cuts_other_entry_points : forall (p : profile) (a : algo) s d
+  (m : list f32) (n : N) s' d' m' M0,
+  a = ANnchain \/ a = AGeneric \/ a = APrimitive ->
+  run_with F32 p a Single s d m n = Ok (s', d', m') ->
+  prologue p m n = Ok M0 -> 1 <= m_obs M0 ->
+  Forall (fun v => Bltb v (f_max F32) = true) m ->
+  forall t : f32, BinarySingleNaN.is_nan t = false ->
+  exists j, j <= m_obs M0 - 1 /\ cut_at (kops_of F32 Single) t j (heights d')
+    /\ forall x y, x < m_obs M0 -> y < m_obs M0 ->
+        (labi (m_obs M0) (d_steps d') j x = labi (m_obs M0) (d_steps d') j y
+         <-> conn (@Bltb 24 128) (dcell (kops_of F32 Single) M0) (seq 0 (m_obs M0)) t x y).
+Proof. exact single_cuts_f32. Qed.
+Print Assumptions C04_f32_single_cuts_other_entry_points.
